@@ -355,3 +355,48 @@ def check_concurrent_case(ctx, case, monitor):
             ctx.fail(f"concurrent:{kind}:disorder-differs-from-the-sequential-call",
                      {"concurrent": float(res.disorder), "sequential": ref[k % len(dissims)], "thread": k,
                       "dissim": case["dissims"][k % len(dissims)]}, monitor=monitor)
+
+
+def gen_concurrent_candidates_case(rng):
+    """ONE label-free dissimilarity object asked for the candidate tables of several continua at once, from as many user
+    threads; the continua carry different category sets (so that a label has another index in each)."""
+    dspec = rng.choice([{"kind": "absolute", "delta": 1.0}, {"kind": "combined", "alpha": 1.0, "beta": 1.0, "delta": 1.0, "pos": None, "cat": None},
+                        {"kind": "combined", "alpha": 0.5, "beta": 3.0, "delta": 2.0, "pos": None, "cat": None}])
+    label_sets = [["a", "b", "c"], ["b", "c", "d", "e"], ["c"], ["A", "a", "b", "z", "zz"], ["x", "y"], ["b", "x"]]
+    continua = []
+    for k in range(4):
+        n = rng.choice([2, 2, 3])
+        cs = cases.gen_continuum(rng, n_annot=n, sizes=[rng.randint(2, 5) for _ in range(n)], labels=label_sets[(k + rng.randrange(6)) % 6],
+                                 family=rng.choice(["grid", "dyadic", "touching", "identical"]))
+        continua.append(cs)
+    return {"concurrent": "candidates", "dissim": dspec, "continua": continua, "repeat": 4}
+
+
+def check_concurrent_candidates_case(ctx, case, monitor):
+    _, pool = setup(ctx)
+    dissim = pool.get(case["dissim"])
+    conts = [cases.build_continuum(cs) for cs in case["continua"]]
+
+    def table(c):
+        dis, tup = dissim.valid_alignments(c)
+        return {tuple(int(x) for x in t): float(v) for t, v in zip(tup, dis)}
+    try:
+        ref = [table(c) for c in conts]
+    except Exception as e:
+        ctx.fail_exc(f"concurrent:candidates:sequential-reference-raises:{type(e).__name__}", e, monitor=monitor)
+        return
+    thunks = [(lambda c=c: [table(c) for _ in range(int(case.get("repeat", 4)))]) for c in conts]
+    for k, (res, exc) in enumerate(concurrent_calls(thunks)):
+        ctx.count(monitor)
+        if exc is not None:
+            ctx.fail_exc(f"concurrent:candidates:raises:{type(exc).__name__}", exc, monitor=monitor)
+            continue
+        for got in res:
+            if set(got) != set(ref[k]):
+                ctx.fail("concurrent:candidates:set-differs-from-the-same-call-alone",
+                         {"thread": k, "missing": sorted(set(ref[k]) - set(got))[:4], "unexpected": sorted(set(got) - set(ref[k]))[:4]}, monitor=monitor)
+                break
+            bad = [(t, got[t], ref[k][t]) for t in got if not oracles.close(got[t], ref[k][t])]
+            if bad:
+                ctx.fail("concurrent:candidates:disorder-differs-from-the-same-call-alone", {"thread": k, "examples": bad[:4]}, monitor=monitor)
+                break
